@@ -305,7 +305,18 @@ func ruleAPIWrites(c *Check, a *Analysis, rule string) {
 		if fname(fn) == "(*Conn).write" || (len(ws) == 0 && !api[fname(fn)]) {
 			continue
 		}
-		_, tr, okp := p.mustPass(fn, nil, func(x ssa.Instruction) bool { return isCallTo(x, "(*Conn).write") })
+		// a defensive early return for a nil *Call argument sends nothing because there is nothing to send
+		nilCall := map[edge]bool{}
+		for _, prm := range fn.Params {
+			if pointeeName(prm) == "Call" {
+				e, _ := p.guardEdges(fn, matchValueNil(p, prm))
+				for k := range e {
+					nilCall[k] = true
+				}
+			}
+		}
+		_, tr, found := p.reachCut(fn, nil, isReturnLike, func(x ssa.Instruction) bool { return isCallTo(x, "(*Conn).write") }, nilCall)
+		okp := !found
 		c.Ob(rule, fname(fn)+"#reaches the sender on every path", fn.Pos(), okp, ifs(!okp, "a path through "+fname(fn)+" never sends the call ("+p.lineTrail(tr)+"): the caller waits forever"))
 		for _, w := range ws {
 			arg := w.Common().Args[1]
@@ -526,7 +537,7 @@ func ruleWGDiscipline(c *Check, a *Analysis, rule string) {
 				}
 				if fv, isFV := wg.(*ssa.Field); !g && isFV {
 					if st2, okS := fv.X.Type().Underlying().(*types.Struct); okS {
-						g, _ = p.guardedBy(in, negate(matchFieldNilAny(p, st2.Field(fv.Field).Name())))
+						g, _ = p.guardedBy(in, negate(matchFieldNilAny(p, canonFieldName(namedOf(fv.X.Type()), st2.Field(fv.Field).Name()))))
 					}
 				}
 				// and nothing that can block or return precedes it
